@@ -18,6 +18,8 @@ import (
 var c12Alphabet = []string{
 	"a", "b", "a/b", "a/c", "a-b", "a b", "a.b", "ab", "a/b/c", "a/b/d", "A", "a/b-c",
 	".", "..", "../x", "a/../b", "/a", "a/", "a//b", "", "./a", "a/.", "..a", "a/..", "b/x",
+	// legal names that merely start with dots, with children
+	"..a/x", "...", ".../y", "a/..b", "a/..b/c",
 }
 
 const (
@@ -203,7 +205,7 @@ func init() {
 	core.Register(&core.Prop{
 		ID:    "C12",
 		Level: "exploration",
-		Rule: "case 0 checks the order axioms on all pairs/triples of a path alphabet; cases 1..N enumerate EVERY sequence with a fixed pair of leading symbols up to the length bound over a 25-path x {dir,file,delete} alphabet (prefixes rejected by both sides are pruned, as the receiver stops there); remaining cases are random sequences up to length 60. " +
+		Rule: "case 0 checks the order axioms on all pairs/triples of a path alphabet; cases 1..N enumerate EVERY sequence with a fixed pair of leading symbols up to the length bound over a 30-path x {dir,file,delete} alphabet (prefixes rejected by both sides are pruned, as the receiver stops there); remaining cases are random sequences up to length 60. " +
 			"Each sequence is fed to a fresh real Validator and to the specification; non-trivial = enumeration chunk or random batch containing at least one sequence the specification accepts beyond length 1; distinct by leading symbols / PRNG value",
 		Assumptions: []string{"os.FileInfo passed to the validator is fsutil.StatInfo, as the receiver does", "unix path separator"},
 		Cases: func(tier string) int {
@@ -242,7 +244,7 @@ func init() {
 				r.Sample = map[string]any{"enumerated_prefix": []string{pre[0].String(), pre[1].String()}, "max_len": maxLen, "sequences": r.Counters["sequences"]}
 			default:
 				// random longer sequences, biased towards valid continuations
-				valid := []string{"a", "a/b", "a/b/c", "a/b/d", "a/b-c", "a/c", "a b", "a-b", "a.b", "A", "ab", "b", "b/x", "..a"}
+				valid := []string{"a", "a/b", "a/b/c", "a/b/d", "a/b-c", "a/c", "a b", "a-b", "a.b", "A", "ab", "b", "b/x", "..a", "..a/x", "...", ".../y", "a/..b", "a/..b/c"}
 				nseq := 2000
 				var sample []string
 				for s := 0; s < nseq; s++ {
